@@ -1,6 +1,7 @@
 # -*- coding: utf-8 -*-
 """Base nested sampler object"""
 from abc import ABC, abstractmethod
+from contextlib import contextmanager
 import datetime
 import logging
 import os
@@ -112,6 +113,28 @@ class BaseNestedSampler(ABC):
 
         self.live_points = None
         self.history = None
+
+    _critical_depth = 0
+    _deferred_exit = None
+
+    @contextmanager
+    def _critical_section(self):
+        """Context in which a request to exit (e.g. from a signal handler) \
+            is deferred.
+
+        Used around updates that must not be interrupted part-way, since
+        exiting checkpoints the sampler and the pickled state would be
+        inconsistent. The deferred request is executed on leaving the
+        outermost context.
+        """
+        self._critical_depth += 1
+        try:
+            yield
+        finally:
+            self._critical_depth -= 1
+            if not self._critical_depth and self._deferred_exit is not None:
+                deferred_exit, self._deferred_exit = self._deferred_exit, None
+                deferred_exit()
 
     @property
     def current_sampling_time(self):
@@ -396,7 +419,13 @@ class BaseNestedSampler(ABC):
 
     def __getstate__(self):
         d = self.__dict__
-        exclude = {"model", "proposal", "checkpoint_callback"}
+        exclude = {
+            "model",
+            "proposal",
+            "checkpoint_callback",
+            "_critical_depth",
+            "_deferred_exit",
+        }
         state = {k: d[k] for k in d.keys() - exclude}
         state["_previous_likelihood_evaluations"] = d[
             "model"
